@@ -6,11 +6,24 @@ use serde_json::{json, Value};
 
 /// Compile `text` with the default runtime and search `doc`; returns the OUT record.
 pub fn compile_and_search(text: &str, doc: &Value) -> Value {
+    compile_and_search_as(text, doc, "")
+}
+
+/// `input`: how the document is handed to `search` -- "" as an Rcvar (the default), "value" as an owned serde_json::Value, "ref" as a
+/// &serde_json::Value (the conversion `ToJmespath` performs differs between the feature sets; what is searched must not)
+pub fn compile_and_search_as(text: &str, doc: &Value, input: &str) -> Value {
     guarded(|| {
         let expr = match jmespath::compile(text) {
             Ok(e) => e,
             Err(e) => return json!({"err":err_to_json(&e, text),"stage":"compile"}),
         };
+        if input == "value" || input == "ref" {
+            let j = match tagged_to_json(doc) {
+                Ok(j) => j,
+                Err(e) => return json!({"harness":ascii_cps(&e)}),
+            };
+            return if input == "ref" { outcome(&expr.search(&j), text) } else { outcome(&expr.search(j), text) };
+        }
         let data = match tagged_to_var(doc) {
             Ok(d) => d,
             Err(e) => return json!({"harness":ascii_cps(&e)}),
@@ -42,7 +55,40 @@ pub fn run_case(case: &Value) -> Value {
         obs.as_object_mut().unwrap().insert("doc".into(), doc);
     }
     let text = uncps(&case["text"]);
-    let out = if let Some(rt) = case.get("rt").and_then(|x| x.as_str()) {
+    let out = if case.get("share").and_then(|x| x.as_bool()).unwrap_or(false) {
+        // results whose sub-values are shared (`[@, @]` chained n times has 2^n paths and n arrays): the result is NOT serialised,
+        // only its depth along the first members is reported -- what counts is that the call returns
+        guarded(|| {
+            let expr = match jmespath::compile(&text) {
+                Ok(e) => e,
+                Err(e) => return json!({"err":err_to_json(&e, &text),"stage":"compile"}),
+            };
+            let data = match tagged_to_var(&obs["doc"]) {
+                Ok(d) => d,
+                Err(e) => return json!({"harness":ascii_cps(&e)}),
+            };
+            match expr.search(data) {
+                Ok(r) => {
+                    let mut depth = 0i64;
+                    let mut cur = r.clone();
+                    loop {
+                        let next = match &*cur {
+                            jmespath::Variable::Array(a) if !a.is_empty() => a[0].clone(),
+                            jmespath::Variable::Object(m) if !m.is_empty() => m.values().next().unwrap().clone(),
+                            _ => break,
+                        };
+                        cur = next;
+                        depth += 1;
+                        if depth > 100000 {
+                            break;
+                        }
+                    }
+                    json!({"ok":{"t":"num","p":depth,"q":1}})
+                }
+                Err(e) => json!({"err":err_to_json(&e, &text),"stage":"search"}),
+            }
+        })
+    } else if let Some(rt) = case.get("rt").and_then(|x| x.as_str()) {
         // a runtime of the caller's own instead of the shared default one: "empty" has no functions at all,
         // "fresh" has had the built-ins registered
         let rt = rt.to_string();
@@ -75,7 +121,7 @@ pub fn run_case(case: &Value) -> Value {
             }
         })
     } else {
-        compile_and_search(&text, &obs["doc"])
+        compile_and_search_as(&text, &obs["doc"], case.get("input").and_then(|x| x.as_str()).unwrap_or(""))
     };
     let m = obs.as_object_mut().unwrap();
     m.insert("out".into(), out);
